@@ -51,9 +51,6 @@ HARNESSES = [
             'CRIT 1: target dispatcher inside a critical task (critical stream). ' + WORLD + ORACLE + SCHED + 'quick: 1 free + 1 settle + probe round, thorough: 2 free + 2 settle + probe.',
        bounds=bnd(model_threads='3 (MODE 1: 2)'),
        thorough_override=dict(defines={'ROUNDS': 2, 'SETTLE': 2}, timeout=3600, bounds=bnd(model_threads='3 (MODE 1: 2)', free_rounds=2, forced_rounds='2 settle + 1 probe')), **COMMON),
-  dict(name='handshake_r2', unit='hs', defines={'ROUNDS': 2, 'SETTLE': 1}, scenarios=[{'MODE': 0}],
-       desc='handshake MODE 0 with 2 free rounds (two solver-chosen slices per stack before the forced rounds). ' + WORLD + ORACLE,
-       bounds=bnd(model_threads=3, free_rounds=2), **COMMON),
   dict(name='handshake_r3', unit='hs', defines={'ROUNDS': 3, 'SETTLE': 1}, tiers=['thorough'], scenarios=[{'MODE': 0}],
        desc='handshake MODE 0 with 3 free rounds (up to 3 slices per stack before the forced rounds). ' + WORLD + ORACLE,
        bounds=bnd(model_threads=3, free_rounds=3), **dict(COMMON, timeout=3600)),
